@@ -6,14 +6,15 @@ package types
 // list of n arbitrary transaction ids and a chosen subset of it.
 
 //verif:property C30
-//verif:bound lists of n = 0..4 (quick) / 5..6 (thorough) arbitrary 256-bit transaction ids, every subset (one obligation per (n, subset mask)); tampering: every single proof hash replaced by an arbitrary different hash, every single flag replaced by an arbitrary different byte, one related id replaced by an arbitrary id outside the list, an arbitrary different root
+//verif:bound lists of n = 0..4 arbitrary 256-bit transaction ids with every subset (one obligation per (n, subset mask)); thorough: n = 5 and 6 with a sample of 7 subsets; tampering: every single proof hash replaced by an arbitrary different hash, every single flag replaced by an arbitrary different byte, one related id replaced by an arbitrary id outside the list, an arbitrary different root
 //verif:assume SHA3-256 is an uninterpreted function without collisions (leaf and interior node hashes)
 //verif:assume the ids of a transaction list are pairwise distinct (a block cannot hold the same transaction twice) and the related ids are given in list order, as the callers (api.GetMerkleBlock and the SPV peer) derive them by filtering the block's transactions
 //verif:assume bc.Hash.String (protobuf text form, reflection) is an injective function of the hash (solver: the 32 raw bytes as a string; native replay: the real method)
-//verif:outside lists of 7..64 ids; proofs forged from scratch (arbitrary hash and flag lists not derived from an honest proof) beyond VerifC30Forge's bound of 3 nodes
+//verif:outside lists of 7..64 ids (and most subsets for 5..6); proofs forged from scratch (arbitrary hash and flag lists not derived from an honest proof by one replacement); duplicate ids in the list
 //verif:override (*github.com/bytom/bytom/protocol/bc.Hash).String -> verifC30HashString
-//verif:obligation fn=VerifC30Proof args=0,0;1,0;1,1;2,0;2,1;2,2;2,3;3,0;3,1;3,2;3,3;3,4;3,5;3,6;3,7 validate=10
-//verif:obligation fn=VerifC30Proof args=4,0;4,1;4,2;4,3;4,4;4,5;4,6;4,7;4,8;4,9;4,10;4,11;4,12;4,13;4,14;4,15 validate=10
+//verif:obligation fn=VerifC30Proof args=0,0;1,0;1,1;2,0;2,1;2,2;2,3;3,0;3,1;3,2;3,3;3,4;3,5;3,6;3,7 validate=10 timeout=600000 secs=3600
+//verif:obligation fn=VerifC30Proof args=4,0;4,1;4,2;4,3;4,4;4,5;4,6;4,7;4,8;4,9;4,10;4,11;4,12;4,13;4,14;4,15 timeout=600000 secs=3600
+//verif:obligation fn=VerifC30Proof args=5,1;5,16;5,21;5,31;6,9;6,32;6,63 tier=thorough timeout=600000 secs=6000
 
 import (
 	"github.com/bytom/bytom/protocol/bc"
